@@ -111,6 +111,14 @@ def gen_cases(rng, n):
         op = gen.gen_sim_op(rng, c, absences=rng.random() < 0.5)
         op["max_time"] = rng.choice([40, 40, 8])
         ops = [op]
+        if rng.random() < 0.15:
+            # an earlier run of the same object under another absence list: the list the edits work with
+            # is the one of the LAST run
+            op0 = gen.gen_sim_op(rng, c, absences=True)
+            if not op0["abs"]:
+                op0["abs"] = sorted(set(rng.randrange(0, 6) for _ in range(rng.choice([1, 2, 3]))))
+            op0["max_time"] = rng.choice([40, 40, 8])
+            ops = [op0, dict(op, init_state=True, init_log=True)]
         for _ in range(rng.choice([1, 2, 2, 3, 4])):
             if rng.random() < 0.4:
                 ops.append({"op": "remove_absence"})
